@@ -98,6 +98,15 @@ def gen_c01(tier, rng):
     for c in cases[::9]:
         parts = c.split('\t')
         cases.append('pair.c03\t' + parts[1] + '\t' + parts[2])
+    # ... and through every other Unix-flavoured type of the crate (UTF-8, runtime-typed, owned, platform),
+    # each compared with the byte family on the same schedule
+    for c in cases[::7]:
+        parts = c.split('\t')
+        if not parts[0] == 'c01':
+            continue
+        ok8 = is_utf8(bytes.fromhex(parts[1][1:]))
+        fams = ALL_BYTE['u'] + (ALL_UTF8['u'] if ok8 else [])
+        cases.append('same.c03.' + rng.choice(fams) + '\t' + parts[1] + '\t' + parts[2])
     return cases, dist
 
 
@@ -376,6 +385,18 @@ def gen_c02(tier, rng):
         if is_utf8(s):
             cases.append(case('c02.w8', s))
     hist(dist.setdefault('stream', {}), 'sweep256')
+    # the prefix / root queries asked of a partially consumed iterator (byte and UTF-8 components): schedules
+    # of front and back steps, the iterator reporting about itself after every step
+    extra = []
+    for c in cases[::3]:
+        parts = c.split('\t')
+        if parts[0] not in ('c02.w', 'c02.w8'):
+            continue
+        sb = bytes.fromhex(parts[1][1:])
+        n = seg_count('w', sb) + 2
+        for sc in (bytes(rng.randint(0, 1) for _ in range(n + 1)), bytes([1] * (n + 1))):
+            extra.append(case('c03.' + parts[0].split('.')[1], sb, sc))
+    cases += extra
     return cases, dist
 
 
@@ -389,12 +410,21 @@ def gen_c17(tier, rng):
             cases.append(case('c16.' + enc, s))
     c16, _ = gen_unary('c16', scale=0.2, fam_filter=lambda f: f in ('u', 'w', 'u8', 'w8'))(tier, rng)
     cases += c16
+    # ... also through the runtime-typed (borrowed and owned, byte and UTF-8) conversions
+    cases += refamily(c16[::3], rng, 'typed') + refamily(c16[::5], rng, 'utf8')
     return cases, dist
 
 
 def gen_c06(tier, rng):
     cases, dist = gen_pairs('c06', encs=('u',), fam_filter=lambda f: f == 'u')(tier, rng)
-    return [c.replace('c06.u\t', 'pair.c06\t', 1) for c in cases], dist
+    out = [c.replace('c06.u\t', 'pair.c06\t', 1) for c in cases]
+    # the same queries through the UTF-8 / runtime-typed / owned / platform Unix types, each next to the byte family
+    for c in cases[::4]:
+        parts = c.split('\t')
+        ok8 = all(is_utf8(bytes.fromhex(x[1:])) for x in parts[1:])
+        fams = ALL_BYTE['u'] + (ALL_UTF8['u'] if ok8 else [])
+        out.append('same.c06.' + rng.choice(fams) + '\t' + '\t'.join(parts[1:]))
+    return out, dist
 
 
 STD_HOPS = [o for o in HOPS if o not in ('pushc', 'norm')]
@@ -403,7 +433,14 @@ STD_HOPS = [o for o in HOPS if o not in ('pushc', 'norm')]
 def gen_c07(tier, rng):
     dist = {}
     cases = gen_hist('u', ['x'], tier, rng, dist, ops=STD_HOPS, std=True)
-    return [c.replace('hist.x\t', 'pair.hist\t', 1) for c in cases], dist
+    out = [c.replace('hist.x\t', 'pair.hist\t', 1) for c in cases]
+    # the same histories on the UTF-8 / runtime-typed / platform Unix buffers, each next to the byte buffer
+    for c in cases[::3]:
+        blobs = re.findall(r'x([0-9a-f]*)', c)
+        ok8 = all(is_utf8(bytes.fromhex(x)) for x in blobs)
+        fams = ['tu', 'bu', 'tbu', 'pu'] + (['u8', 't8u', 'b8u', 'tb8u', 'p8'] if ok8 else [])
+        out.append(c.replace('hist.x\t', 'same.hist.' + rng.choice(fams) + '\t', 1))
+    return out, dist
 
 
 def gen_c08(tier, rng):
@@ -584,7 +621,7 @@ def long_cases(rng, n):
 
 def gen_c18_impl_only(tier, rng):
     """very long inputs: run on the implementation only (the model cannot exhibit stack depth or time)"""
-    return long_cases(rng, 3000 if tier == "quick" else 40000)
+    return long_cases(rng, 3000 if tier == "quick" else 12000)
 
 
 def gen_c18(tier, rng):
@@ -593,6 +630,12 @@ def gen_c18(tier, rng):
     cases += long_cases(rng, 120 if tier == 'quick' else 400)
     for s in strings_upto([0x5c, 0x2f, 0x2e, 0x3a, 0x3f, 0x61, 0x43, 0x55, 0x4e, 0x00, 0xe9], 4 if tier == 'quick' else 5):
         cases.append(case('c02.w', s)); cases.append(case('c09.w', s)); cases.append(case('c09.u', s))
+    # derive / From on every shape of short UTF-8 input (multi-byte characters in every position) and on random bytes
+    for s in utf8_strings_upto(3 if tier == 'quick' else 4):
+        cases.append(case('c15d', s))
+    for _ in range(5000):
+        cases.append(case('c15d', random_utf8_path(rng, rng.random() < 0.5)))
+        cases.append(case('c15d', random_bytes(rng, 8)))
     for c in cases:
         hist(dist['ops'], c.split('\t')[0])
     return cases, dist
@@ -618,6 +661,10 @@ def gen_c19(tier, rng):
 def gen_c20(tier, rng):
     cases = mixed_cases(tier, rng, scale=0.2)
     cases += refamily(cases[::7], rng, 'utf8') + refamily(cases[::11], rng, 'typed')
+    # to_str / lossy / Display (also formatted with width, fill and precision) and every conversion chain, in both builds
+    for _ in range(4000 if tier == 'quick' else 40000):
+        r = rng.random()
+        cases.append(case('c19', random_bytes(rng, 12) if r < 0.3 else (random_utf8_path(rng, rng.random() < 0.5) if r < 0.7 else random_unix_path(rng, 4))))
     dist = {'ops': {}}
     for c in cases:
         hist(dist['ops'], c.split('\t')[0])
